@@ -26,13 +26,16 @@ import Rpft.Lemmas.Csv
 import Rpft.Lemmas.JsonText
 import Rpft.Lemmas.JsonBook
 import Rpft.Gen.Tables
+import Rpft.Canon
 set_option linter.unusedSimpArgs false
 set_option linter.unusedVariables false
 namespace Rpft.Props.C14
 open Rpft Rpft.Sheets
 
-/-- T1: the format → reader table of the model is the one in the source (regenerated each run). -/
-theorem tables_agree : Gen.sheetFormatReaders = formatReaders := by decide
+/-- T1: the format → reader table of the model is the one of the source (regenerated each run by
+probing `create_sheet_reader`).  A lookup on distinct format words: compared up to order. -/
+theorem tables_agree :
+    Canon.sameMap Gen.sheetFormatReaders formatReaders ∧ Canon.uniqueKeys formatReaders = true := by decide
 
 /-! ### hypotheses -/
 
